@@ -29,6 +29,7 @@ def seal(b, sym, spelling, nested):
         for c in ("R/B", "R/AB", "R/C", "R/A"):
             r = b.run("create", root=c, h=["md5"])
             b.require(r.exit == 0, "setup-create", "%s %s" % (c, r))
+            b.restamp(c)
     r = b.run("create", h=["md5", "c4"], i=["*.tmp"], **rootarg)
     b.require(r.exit == 0 and r.exc is None, "create-exit-0", "%s %s" % (rootarg, r))
     r = b.run("create", h=["md5"], **rootarg)
